@@ -81,6 +81,7 @@ type Term struct {
 	h2   uint64
 	size int
 	vs   []int32 // sorted ids of the free variables
+	fp   bool    // contains a floating-point operation (not just constants)
 	tbl  int     // > 0: the term is a constant or an ite-tree over constants with tbl leaves ("table")
 }
 
@@ -174,6 +175,14 @@ func mk(op string, sort Sort, args ...*Term) *Term {
 		t.h2 = mix(t.h2, a.h2^0xabcdef)
 		t.size += a.size
 		t.vs = mergeVars(t.vs, a.vs)
+	}
+	if strings.HasPrefix(op, "fp.") || strings.Contains(op, "to_fp") || strings.Contains(op, "fp.to") {
+		t.fp = true
+	}
+	for _, a := range args {
+		if a.fp {
+			t.fp = true
+		}
 	}
 	if op == "ite" && args[1].tbl > 0 && args[2].tbl > 0 {
 		t.tbl = args[1].tbl + args[2].tbl
